@@ -17,6 +17,10 @@ def main():
         import checks_interp as m
     elif pid == "C12":
         import check_c12 as m
+    elif pid == "C04":
+        import check_c04 as m
+    elif pid == "C20":
+        import check_c20 as m
     elif pid == "C17":
         import check_c17 as m
     else:
